@@ -779,6 +779,37 @@ def run(ctx: Any, prog: Program) -> None:
     if n_chunk_lines < 6:
         raise AnalysisError(f'Cython _next_char: only {n_chunk_lines} lines mention the loaded chunk (confirmed by hand: 10)')
 
+    # ---- K4 (token level): a loop that pulls tokens ends at EOF -------------------------------------------------------------------------------
+    # The tokenizer answers (EOF, '') for ever once the text is exhausted.  `for tok in tokenizer:` stops there by itself; a `while` loop in
+    # keyvalues.py that calls the tokenizer has to look for EOF and leave (return / raise / break), otherwise text that ends inside the
+    # construct the loop skips over makes parse() spin - "finishes in a number of steps linear in the input" fails for that input.
+    kv4 = prog.module('keyvalues')
+    n_tl = 0
+    for q4, fl4 in kv4.all_funcs().items():
+        for f4 in fl4:
+            params4 = {a.arg for a in f4.args.args + f4.args.kwonlyargs}
+            tok_names = {n_ for n_ in params4 if 'tok' in n_} | {t.id for a in walk_no_nested(f4) if isinstance(a, ast.Assign) and isinstance(a.value, ast.Call) and (dotted(a.value.func) or '').endswith('Tokenizer')
+                                                                  for t in a.targets if isinstance(t, ast.Name)}
+            for lp4 in [l for l in walk_no_nested(f4) if isinstance(l, (ast.While, ast.For))]:
+                pulls = [c for c in ast.walk(lp4) if isinstance(c, ast.Call) and isinstance(c.func, ast.Name) and c.func.id in tok_names]
+                iter_tok = isinstance(lp4, ast.For) and isinstance(lp4.iter, ast.Name) and lp4.iter.id in tok_names
+                if not pulls and not iter_tok:
+                    continue
+                n_tl += 1
+                if iter_tok:
+                    ctx.check('C03.K4', True, kv4, lp4, 'iteration over the tokenizer stops at EOF', func=q4, text=f'{q4}: token loop ends at EOF')
+                    continue
+                eof_exit = False
+                for if4 in [i for i in ast.walk(lp4) if isinstance(i, ast.If)]:
+                    if any(isinstance(c, ast.Compare) and any((dotted(x) or '').split('.')[-1] == 'EOF' for x in [c.left] + list(c.comparators)) for c in ast.walk(if4.test)) \
+                            and any(isinstance(x, (ast.Return, ast.Raise, ast.Break)) for b in if4.body for x in ast.walk(b)):
+                        eof_exit = True
+                bounded = isinstance(lp4, ast.While) and not (isinstance(lp4.test, ast.Constant) and lp4.test.value is True) and any(isinstance(x, ast.Name) and x.id != 'True' for x in ast.walk(lp4.test)) \
+                    and any(isinstance(c, ast.Compare) and any((dotted(x) or '').split('.')[-1] == 'EOF' for x in [c.left] + list(c.comparators)) for c in ast.walk(lp4.test))
+                ctx.check('C03.K4', eof_exit or bounded, kv4, lp4, f'{q4} pulls tokens in a loop that never looks for EOF: the tokenizer keeps answering EOF once the text has ended, so text that stops inside what this loop '
+                          'consumes (an unclosed block) is never finished with - parse() does not return', func=q4, text=f'{q4}: token loop ends at EOF')
+    ctx.shape('C03.K4', n_tl >= 1, kv4, kv4.tree, 'no token loop found in keyvalues.py (the main loop of Keyvalues.parse confirmed by hand)', text='token loops of keyvalues.py')
+
 
 def _guarded_by_nonstr(mod: Any, n: ast.AST) -> bool:
     p = mod.parents.get(n)
@@ -792,6 +823,7 @@ def _guarded_by_nonstr(mod: Any, n: ast.AST) -> bool:
 
 
 MUTANTS = [
+    {'id': 'flag_skip_loop_ignores_eof', 'file': 'keyvalues.py', 'find': "class Keyvalues:\n    \"\"\"Represents Valve's Keyvalues 1 file format.", 'replace': "def _skip_line(tokenizer: BaseTokenizer) -> None:\n    while True:\n        tok_type, tok_value = tokenizer()\n        if tok_type is Token.NEWLINE:\n            return\n\n\nclass Keyvalues:\n    \"\"\"Represents Valve's Keyvalues 1 file format.", 'expect': 'C03.K4', 'note': 'round 12'},
     {'id': 'read_flag_indexes_empty_string', 'file': 'keyvalues.py', 'find': "    flag_inv = flag_val[:1] == '!'", 'replace': "    flag_inv = flag_val[0] == '!'", 'expect': 'C03.K5'},
     {'id': 'cursor_reset_before_empty_chunk_skip', 'file': 'tokenizer.py', 'find': "                    if chunk:\n                        self._cur_chunk = chunk\n                        self._char_index = 0\n                        return chunk[0]\n", 'replace': "                    self._char_index = 0\n                    if not chunk:\n                        continue\n                    self._cur_chunk = chunk\n                    return chunk[0]\n", 'expect': 'C03.K1'},
     {'id': 'push_back_without_value', 'file': 'keyvalues.py', 'find': "                    tokenizer.push_back(prop_type, prop_value)", 'replace': "                    tokenizer.push_back(prop_type)", 'expect': 'C03.K5'},
